@@ -47,6 +47,8 @@ HAND_WBXML = [
     "03056a0478797a00" "4400" "01",                                     # SI: literal tag <xyz> with content
     "03056a0478797a00" "45" "c60b03687474703a2f2f6100" "0a" "c3041999123101" "01" "8300" "02a020" "01" "01",
     "01046a00" "7f" "e7" "550378005a03793d7a0001" "60" "43" "0400" "0376" "0001" "01" "01" "01",   # WML 1.1 card/p, pi
+    "030e6a00" "4c" "c303010203" "01",                 # DRMREL <ds:KeyValue> opaque: decode_base64_value (content)
+    "029f536a00" "0001" "50" "c303010203" "01",        # SyncML 1.1 MetInf <NextNonce> opaque: decode_base64_value (content)
 ]
 
 
